@@ -669,6 +669,10 @@ def c03(tier):
     res = core.merge(core.run_sharded(["codec"], mods, timeout=900))
     account(v, res, "changed-after-decode", {"pairs": len(mods)}, own={"C03"})
     v.cov["distinct_nontrivial"] += len(mods)
+    edits = codec_variants(v, "edits")
+    res = core.merge(core.run_sharded(["codec"], edits, timeout=900))
+    account(v, res, "filter-lists-edited-at-any-position", {"edit_sequences": len(edits)}, own={"C03"})
+    v.cov["distinct_nontrivial"] += len(edits)
     pads = codec_variants(v, "pads")
     res = core.merge(core.run_sharded(["codec"], pads, timeout=900))
     account(v, res, "padded-remaining-length", {"accepted": res.get("counts", {}).get("padded_accepted", 0),
